@@ -1,7 +1,7 @@
 (** C12 - Middlewares gate admission and events: nothing passes that a middleware rejected.
     Statements only; every proof is `exact <lemma>`. *)
 From SioV Require Import Base.GoSem Sio.Middleware Sio.MiddlewareProofs Sio.MiddlewareAdapterProofs
-  Sio.MiddlewareAdmProofs.
+  Sio.MiddlewareAdmProofs Sio.MiddlewareCheck Sio.MiddlewareCheckProofs.
 
 (** ** Admission through the namespace middlewares
 
@@ -109,6 +109,23 @@ Proof. exact run_static. Qed.
 Theorem C12_reachable_inv : forall ts0 sched s ts t,
   fresh ts0 -> run sched (init ts0) = (s, ts) -> In t ts -> consistent (adp s) /\ tinv s t.
 Proof. exact reachable_inv. Qed.
+
+(** ** The checkers used on the live histories, related to the theorems *)
+
+(** What the rig reads through the public API (Sockets, Connected, SocketRooms, Adapter.Sockets) and
+    the oracle tests are instances of [visible], the notion the admission theorems are about. *)
+Theorem C12_observables_are_visible : forall s x,
+  listed s x = true \/ is_connected s x = true \/ in_own_room s x = true \/ reach_all s x = true \/
+  (exists r, reach_room s r x = true) ->
+  visible s x.
+Proof. exact observables_visible. Qed.
+
+(** For every chain of length <= 3 over all 4 join patterns x 4 verdict kinds per middleware (4369
+    chains, exhaustive kernel evaluation): the observation the model predicts satisfies the property
+    oracle evaluated on the live histories (and, trivially, agrees with itself). *)
+Theorem C12_model_satisfies_oracle_small : forall chain,
+  In chain (chains_upto 3) -> oracle (obs_of chain) = true /\ agree (obs_of chain) = true.
+Proof. exact model_satisfies_oracle_small. Qed.
 
 (** Non-vacuity: three clients; the second is rejected by its second middleware after both
     middlewares joined it to rooms; an interleaved schedule. *)
